@@ -67,7 +67,8 @@ def modfile_args():
 def harness(args, timeout=3600, env=None):
     r = subprocess.run([HARNESS_BIN] + args, capture_output=True, text=True, timeout=timeout, env=env or GOENV)
     if r.returncode != 0:
-        raise Inconclusive('harness %s failed rc=%d:\n%s\n%s' % (args[:2], r.returncode, r.stdout[-2000:], r.stderr[-4000:]))
+        # (head and tail of stderr: a Go crash report starts with its cause and ends with the last goroutines)
+        raise Inconclusive('harness %s failed rc=%d:\n%s\n%s\n...\n%s' % (args[:2], r.returncode, r.stdout[-2000:], r.stderr[:3000], r.stderr[-3000:]))
     last = [l for l in r.stdout.strip().splitlines() if l.startswith('{')]
     return json.loads(last[-1]) if last else {}
 
